@@ -209,6 +209,7 @@ func (c *fctx) msg(out *expFile, scope, name string, oneof bool, prepend, props 
 			m.Msgs = append(m.Msgs, entry)
 			f.Type = "message"
 			f.TypeName = "." + entry.Full
+			f.Ext = "map" // d9448b1: the map field carries (j5.ext.v1.field).map
 		default:
 			c.scalarOrTyped(out, m, f, p.Name, fld)
 		}
